@@ -1,0 +1,12 @@
+// Copyright (c) HashiCorp, Inc.
+// SPDX-License-Identifier: MPL-2.0
+
+//go:build !verif
+
+package sourcebundle
+
+import "sync"
+
+// builderMutex is the type of Builder.mu. Without the "verif" build tag it is
+// exactly sync.Mutex.
+type builderMutex = sync.Mutex
